@@ -112,7 +112,7 @@ inductive Out
   /-- `<spec> | <model>` -/
   | hsFmt (spec : Option (List UInt8)) (model : Humansize.FmtResult)
   | skip
-  deriving Repr
+  deriving Repr, DecidableEq
 
 /-- the bounds of a signed target are not both within the target type (out of contract) -/
 def isOoc (t : IntTy) (mn mx : CVal) : Bool :=
